@@ -361,6 +361,11 @@ func (Prop) Exec(c kernel.Case) *kernel.Violation {
 
 // directed programs biased to the rewrite preconditions and their near misses.
 var directed = []struct{ Src, In string }{
+	{`if . then 1 else (2 | tostring) end`, `false`},
+	{`if . then 1 else 2 + 1 end, if . then (1 | tostring) else 2 end, if . then 1 else (2, 3) end`, `false`},
+	{`if . then "a" else ("b" | length) end, if . then null else [1] | .[0] end`, `null`},
+	{`if . then 1 elif . == null then (2 | tostring) else 3 end`, `null`},
+	{`(. and (1 | not)), (. or (null | not))`, `false`},
 	{`[((1, .) | 2)]`, `"x"`},
 	{`[(1, .) | 2], [(., 1) | 2], [1, (.) | 2], [(1, 2) | 3], [(1, empty) | 2]`, `"x"`},
 	{`{a: ((1, .) | 2)}, {a: 1, b: ((2, .) | 3)}`, `"x"`},
@@ -581,6 +586,16 @@ func buildItems(tr tiers, seed uint64) []item {
 	n := len(items)
 	for i := 0; i < n; i++ {
 		it := items[i]
+		if it.origin == "directed" {
+			// every directed program in every context: no listed shape depends on a draw
+			for _, w := range contexts {
+				jt := it
+				jt.src = strings.ReplaceAll(w, "%P%", it.src)
+				jt.origin = "directed+context"
+				items = append(items, jt)
+			}
+			continue
+		}
 		if it.origin == "generated" && !r.Bool(0.35) || len(it.varNames) > 0 {
 			continue
 		}
